@@ -51,7 +51,7 @@ Contract(name, opt) ==
     \* conversion of single-qudit gates: opt.a = the gates that must be converted, opt.b = what they become
     [] name = "ToU3Pass"       -> Rec(ToSet(opt.a), {"U3Gate"}, FALSE, FALSE)
     [] name = "ToVariablePass" -> Rec(ToSet(opt.a), {"VariableUnitaryGate"}, FALSE, FALSE)
-    [] name = "BlockConversionPass" -> Rec(ToSet(opt.a), ToSet(opt.b), FALSE, TRUE)
+    [] name = "BlockConversionPass" -> Rec(ToSet(opt.a), ToSet(opt.b), TRUE, FALSE)
     \* structure-only passes
     [] name = "CompressPass"   -> Rec({}, {}, TRUE, TRUE)
     [] name = "UnfoldPass"     -> Rec({"CircuitGate"}, {}, FALSE, TRUE)
